@@ -3,7 +3,7 @@
 import random
 import vlib
 import c07_gen
-from nodegen import random_history
+from nodegen import random_history, random_history_api
 from nodesim import parse_result
 
 MAX_DATA = 223          # tN2kMsg::MaxDataLen, from the property text
@@ -25,6 +25,8 @@ def gen(seed, tier):
             cases.append(c07_gen.history(r, max_ops=r.choice([30, 50, 70])))
         for _ in range(150):
             cases.append(random_history(r, n_ops=40))
+        for _ in range(150):
+            cases.append(random_history_api(r, n_ops=40))       # public calls of the application mixed in: any device index, any argument
         for _ in range(100):
             cases.append(c07_gen.d14_history(r))
     return cases
@@ -72,7 +74,7 @@ def check(run, replay=None):
     # gets a bounded number of cases: beyond ~10^4 histories the sanitizer's allocator gives up, which would look like a crash
     CHUNK = 2500
     chunks = [cases[k:k + CHUNK] for k in range(0, len(cases), CHUNK)]
-    for fs in (() if (replay and any(l.startswith(('# family: gf-', '# family: devlist')) for l in open(replay))) else ('w64', 'w32')):
+    for fs in (() if (replay and any(l.startswith(('# family: gf-', '# family: devlist', '# family: actisense')) for l in open(replay))) else ('w64', 'w32')):
         for k, chunk in enumerate(chunks):
             fam = 'safe-' + fs if len(chunks) == 1 else 'safe-%s-c%02d' % (fs, k)
             vlib.correspond(run, fam, 'h_node', fs, 'NODE', chunk, oracle, nontrivial, model_args=[fs])
@@ -90,4 +92,12 @@ def check(run, replay=None):
     if dl_replay or not replay:
         import p_C18
         dcases = cases if dl_replay else p_C18.gen(run.seed, run.tier)
-        vlib.correspond(run, 'devlist', 'h_devlist', 'w64', 'C18', dcases, lambda c, res: ('memory:' + res) if res.startswith('crash') else None, None)
+        vlib.correspond(run, 'devlist', 'h_devlist', 'w64', 'C18', dcases, lambda c, res: ('memory:' + res) if (res.startswith('crash') or 'canary' in res) else None, None)
+    # the Actisense side: SendInActisenseFormat's worst-case buffer (also reached from ParseMessages / SendMsg through message forwarding)
+    # and the stream reader's buffers - the cases of the C17 generator (every payload length x escape densities, forwarding nodes in every
+    # mode, malformed streams) under this property's memory oracle, against the model of C17 (seed C07-10)
+    ac_replay = bool(replay) and any(l.startswith('# family: actisense') for l in open(replay))
+    if ac_replay or not replay:
+        import p_C17
+        acases = cases if ac_replay else p_C17.gen(run.seed, run.tier)
+        vlib.correspond(run, 'actisense', 'h_acti', 'w64', 'C17', acases, lambda c, res: ('memory:' + res) if (res.startswith('crash') or 'canary' in res) else None, None)
